@@ -51,7 +51,8 @@ def analyzerProb (nsq : K → Q) (U : M K) (lossModes : Nat) (fin : FState) (fo 
 def sumQ (l : List Q) : Q := l.foldl (· + ·) 0
 
 /-- `Analyzer.analyze(inputs, expected)` (repaired: the output photon number is the user
-input's).  `expected`: per input, the list of expected outputs. -/
+input's; F31: an expected output listed more than once is counted once).  `expected`: per input,
+the list of expected outputs. -/
 def analyze (i : K) (nsq : K → Q) (c : Circ K) (rules : List Rule) (inputs : List (List Occ))
     (expected : Option (List (List FState))) : Except Err (AnalysisResult Q) := do
   let U := c.Ufull i
@@ -74,7 +75,7 @@ def analyze (i : K) (nsq : K → Q) (c : Circ K) (rules : List Rule) (inputs : L
   let perf := sumQ (probs.map sumQ) / ((fins.length : Nat) : Q)
   let err := expected.map fun ex =>
     let errs := (probs.zip ex).map fun (row, exps) =>
-      exps.foldl (fun e o =>
+      exps.eraseDups.foldl (fun e o =>
         match outs.idxOf? o with
         | some k => e - row.getD k 0 / sumQ row
         | none => e) 1
